@@ -273,7 +273,11 @@ func (x *Exec) instr(st *State, fr *Frame, b *ssa.BasicBlock, i int, in ssa.Inst
 		et := under(v.Type()).(*types.Slice).Elem()
 		x.zeroArr(st, arr, et)
 		x.implicitPanic(st, Lt(ln, TInt(0)), "makeslice", "negative length")
-		fr.regs[v] = st.mkSlice(arr, TInt(0), ln)
+		sl := st.mkSlice(arr, TInt(0), ln)
+		if capT, ok := x.get(st, fr, v.Cap).(Term); ok {
+			st.assume(Eq(UF(SI, "sl.cap", sl), capT))
+		}
+		fr.regs[v] = sl
 		return false
 	case *ssa.MakeChan:
 		ch := st.allocRef()
